@@ -132,10 +132,16 @@ func goroutines(pred func(header, body string) bool) int {
 	return c
 }
 
+// osLimit bounds the waits of this section. It is generous on purpose: on a loaded machine the
+// goroutine that walks the layer and parses the rpm database is merely slow (a 30 s limit raised
+// alarms on unchanged code while four thorough-size checks ran in parallel); only code that
+// really hangs reaches it.
+const osLimit = 5 * time.Minute
+
 // waitUntil polls cond (stack inspection) until it holds; false after the time-out, which is
 // only reached when the code under test hangs.
 func waitUntil(cond func() bool) bool {
-	deadline := time.Now().Add(30 * time.Second)
+	deadline := time.Now().Add(osLimit)
 	for i := 0; ; i++ {
 		if cond() {
 			return true
@@ -620,7 +626,7 @@ func (ol *osLayer) concurrent(rnd *hx.Rand, scs []osScanner, k int) []string {
 	go func() { wg.Wait(); close(all) }()
 	select {
 	case <-all:
-	case <-time.After(60 * time.Second):
+	case <-time.After(osLimit + time.Minute):
 		return append(bad, "scanners hang")
 	}
 	for _, res := range results {
@@ -674,7 +680,7 @@ func (ol *osLayer) afterCancel(rnd *hx.Rand, scs []osScanner, k int) []string {
 		// the first caller has left, its reference is dropped; then the load goes on
 		select {
 		case <-firstDone:
-		case <-time.After(60 * time.Second):
+		case <-time.After(osLimit + time.Minute):
 			bad = append(bad, "the cancelled caller does not return")
 		}
 		waitUntil(func() bool { return gcWaiting() <= gcBase })
